@@ -283,6 +283,7 @@ def gen_scenario(rng, plain=False):
 
     free, certseq = [], []           # freely ordered ops; certificate-related ops keep their relative order
     supplied_datums, direct_scripts = [], []   # datums supplied for hash-locked inputs; Plutus scripts handed over as objects
+    lookalike = []                              # constructor datums handed over as dataclass instances
     # --- script inputs
     for _ in range(rng.choice([0, 1, 1, 2, 2, 3, 4])):
         sid = pick_script()
@@ -292,6 +293,14 @@ def gen_scenario(rng, plain=False):
         if bad(0.03):
             dmode = rng.choice(['inline+', 'hashwrong'])
         dcbor, dform = rand_datum(rng)
+        if lookalike and rng.random() < 0.3:
+            # a LOOK-ALIKE of an earlier datum of this transaction: the same fields under another constructor id (different
+            # bytes, different hash; as dataclass instances of equally named classes they print the same)
+            base = rng.choice(lookalike)
+            dcbor = b'\xd8' + bytes([rng.choice([t for t in range(0x79, 0x80) if t != base[1]])]) + base[2:]
+            dform = 'pdata'
+        if dcbor[:1] == b'\xd8' and 0x79 <= dcbor[1] <= 0x7f and dform == 'pdata':
+            lookalike.append(dcbor)
         datum, dsup = None, None
         if dmode.startswith('hash'):
             datum = ['hash', blake(dcbor, 32).hex()]
@@ -417,6 +426,15 @@ def gen_scenario(rng, plain=False):
         od = rng.choice(supplied_datums) if supplied_datums and rng.random() < 0.6 else rand_datum(rng)
         free.append(['outdatum', od[0].hex(), od[1], rng.random() < 0.5])
     S['native'] = [pick_script(0) for _ in range(rng.choice([0, 0, 0, 0, 1, 2]))]
+    # SECOND BUILD of the same builder (15 %): after the first transaction was built the caller additionally mints under a
+    # native policy — builder.mint and builder.native_scripts are assigned — and builds again.  The second transaction is
+    # judged by the property's decision procedure alone (what the calls of BOTH phases need must be shipped exactly once, ...)
+    if rng.random() < 0.15:
+        sid = new_script(0)
+        pol = shash(sid)
+        if pol.hex() not in [p for p, _ in S['mint']]:
+            S['phase2'] = dict(native=S['native'] + [sid],
+                               mint=S['mint'] + [[pol.hex(), [[rng.randbytes(rng.choice([0, 4])).hex(), rng.choice([1, 7])]]]])
     # --- random interleaving; certificate ops keep their order
     # read-only reference inputs (an oracle / configuration UTxO the validator reads): builder.reference_inputs.add(utxo).
     # Some carry a script the transaction does NOT use, of any language (DOMAIN: never a script that is needed — a witness
@@ -691,6 +709,11 @@ def evaluate(cases, results, shard=40, pid=PID):
         if classify_impl(R)[0] == 'unmodelled':
             mism.add(i)
         good.append((i, S, R))
+        if S.get('phase2') and R.get('tx2'):
+            # the second build of the same builder: judged by the decision procedure only (index tagged as derived)
+            S2 = dict(S, mint=S['phase2']['mint'], native=S['phase2']['native'])
+            R2 = dict(R, tx=R['tx2'], wits_nodup=R['wits_nodup2'], rl=R['rl2'])
+            good.append((('second', i), S2, R2))
     shards, maps = [], []
     for k in range(0, len(good), shard):
         part = good[k:k + shard]
@@ -700,11 +723,14 @@ def evaluate(cases, results, shard=40, pid=PID):
         if not ok or len(lists) != 6:
             errs.append(log[-2500:])
             continue
-        mism.update(mp[j] for j in lists[0])
+        mism.update(mp[j] for j in lists[0] if not isinstance(mp[j], tuple))
         for cl, l in zip(CLAUSES, lists[1:5]):
             for j in l:
-                ofail.setdefault(mp[j], []).append(cl)
-        undec.update(mp[j] for j in lists[5])
+                if isinstance(mp[j], tuple):
+                    ofail.setdefault(mp[j][1], []).append(cl + ' (second build of the same builder)')
+                else:
+                    ofail.setdefault(mp[j], []).append(cl)
+        undec.update(mp[j] for j in lists[5] if not isinstance(mp[j], tuple))
     return mism, ofail, undec, errs
 
 
